@@ -130,9 +130,14 @@ NewEv(e) ==
     LET now0 == IF Has(e, "now") THEN e.now ELSE 0
         viadef == Has(e, "via") /\ e.via = "default"
         f == (IF e.al = 0 /\ ~e.pan THEN {} ELSE {<<"C18", "new">>})
-             \cup (IF (e.k # "poll" \/ e.to = 0) => e.eqd THEN {} ELSE {<<"C17", "new-default">>})
+             \cup (IF (e.k # "poll" \/ (e.to = 0 /\ ~Has(e, "toh"))) => e.eqd THEN {} ELSE {<<"C17", "new-default">>})
+        \* the world's time unit is HALF a millisecond: "to" is in ms (negative = infinite, also the
+        \* 'effectively infinite' huge timeouts), "toh" in half-ms; ticks are logged in ms
+        to2 == IF viadef THEN 0
+               ELSE IF Has(e, "toh") THEN (IF e.toh < 0 THEN Inf ELSE e.toh)
+               ELSE IF e.to < 0 THEN Inf ELSE 2 * e.to
     IN /\ Emit(f)
-       /\ inst' = SetInst(inst, e.id, Fresh(e.k, IF viadef THEN 0 ELSE e.to, now0))
+       /\ inst' = SetInst(inst, e.id, Fresh(e.k, to2, 2 * now0))
        /\ mh' = Push(mh, <<>>)
        /\ stats' = Bump(stats, {"new." \o e.k})
 
@@ -215,7 +220,7 @@ PollEv(e) ==
 
 TickEv(e) ==
     /\ inst' = [x \in DOMAIN inst |->
-                  IF e.id < 0 \/ x = e.id THEN [inst[x] EXCEPT !.now = @ + e.dt] ELSE inst[x]]
+                  IF e.id < 0 \/ x = e.id THEN [inst[x] EXCEPT !.now = @ + 2 * e.dt] ELSE inst[x]]
     /\ mh' = Push(mh, <<>>)
     /\ stats' = Bump(stats, {"tick"})
 
